@@ -50,8 +50,9 @@ def parseParam (j : Json) : R (Param CV) := do
   let help := match optField j "help" with
     | some (.str s) => chars s
     | _ => []
+  let mut_ := (j.getObjValAs? Bool "mutable").toOption.getD false
   return { name := chars (← str j "name"), kind := ← parseKind (← str j "kind"), ann := ann,
-           dflt := dflt, help := help }
+           dflt := dflt, help := help, mutableDefault := mut_ }
 
 def parseSig (c : Json) : R (List (Param CV)) := do
   (← arr c "sig").toList.mapM parseParam
@@ -113,6 +114,9 @@ def opCallFields (c : Json) : R Json := do
   let sig ← parseSig c
   let fs := mainFields sig
   let ps := plainFields sig
+  -- `make_dataclass` refuses an unhashable `default=`: the synthesised class does not exist
+  if fs.any (·.mutable) then
+    return Json.mkObj [("main", "ValueError"), ("plain", "ok")]
   return Json.mkObj [("fields", Json.arr (fs.map fieldJson).toArray),
                      ("setup", Json.str (addOutcomeTag (setup fs))),
                      ("plain_fields", Json.arr (ps.map fieldJson).toArray),
@@ -158,6 +162,7 @@ partial def parseShape (j : Json) : R Shape := do
   | .str "float" => return .float
   | .str "str" => return .str
   | .str "bool" => return .bool
+  | .str "unhashable" => return .unhashable
   | .str _ => return .other
   | _ =>
     match j.getObjVal? "tuple" with
@@ -191,6 +196,7 @@ def opCallConfig (c : Json) : R Json := do
     | _ => none
   match configForDoc (doc "class_doc") (doc "init_doc") classAnn ignore ov sig with
   | (.notImplemented, _) => return Json.mkObj [("o", "raise"), ("exc", "NotImplementedError")]
+  | (.mutableDefault, _) => return Json.mkObj [("o", "raise"), ("exc", "ValueError")]
   | (.docError .valueError, _) => return Json.mkObj [("o", "raise"), ("exc", "ValueError")]
   | (.docError _, _) => return Json.mkObj [("o", "raise"), ("exc", "KeyError")]
   | (.ok fs, helps) =>
@@ -214,6 +220,9 @@ def opCallPartial (c : Json) : R Json := do
   let parse ← parseParseOut (← obj c "parse")
   let args := (← strList c "args").map chars
   let kw ← parsePairs c "kwargs"
+  -- `config_for` itself fails (make_dataclass: mutable default) before anything is parsed
+  if (c.getObjValAs? Bool "mutable_field_default").toOption.getD false then
+    return Json.mkObj [("o", "raise"), ("exc", "ValueError")]
   match partialRun parse args kw with
   | .call cl =>
     let bound := match bind sig cl.args cl.kwargs with
